@@ -18,7 +18,7 @@
    normalised there (interval 0, no out-of-memory events: it does not influence
    the behaviour). *)
 From Coq Require Import Lia.
-From Torf Require Import Base Pipeline PipelineProofs PipeExplore PipeExploreProofs PipeConfigs.
+From Torf Require Import Base Pipeline PipelineProofs FlowProofs PipeExplore PipeExploreProofs PipeConfigs.
 Open Scope Z_scope.
 
 (* soundness of the exploration: what the checker accepts holds for every reachable state *)
@@ -59,6 +59,27 @@ Print Assumptions C03_verify_clean_2_hashers.
 Theorem C03_verify_corrupt_2_hashers : all_schedules_ok V_corrupt_cb [1; 2; 3] true [].
 Proof. exact V_corrupt_cb_ok. Qed.
 Print Assumptions C03_verify_corrupt_2_hashers.
+
+(* unbounded in everything (any schedule, any number of hashers and pieces, any clock): a hashing run over
+   readable pieces that returns True has collected exactly the digests of the pieces, in piece order --
+   nothing lost, nothing duplicated, nothing out of order *)
+Theorem C03_true_is_reference : forall c s hs,
+  reach c s -> cf_verify c = None -> yielded (cf_items c) = map RPiece hs -> cf_total c = zlen hs ->
+  s_result s = Some ResTrue -> sorted_hashes (s_hashes s) = hs.
+Proof. exact true_means_reference. Qed.
+Print Assumptions C03_true_is_reference.
+
+(* ... and the collector's duplicate check (an internal AssertionError) can never fire *)
+Theorem C03_no_piece_twice : forall c s idx h exc r,
+  reach c s -> s_hq s = QPiece idx h exc :: r -> ~ In idx (s_seen s).
+Proof. exact no_piece_twice. Qed.
+Print Assumptions C03_no_piece_twice.
+
+(* the invariant behind both: no piece index is in two places at once, every item in flight carries the
+   payload of its input item, the stored digests belong to their indices *)
+Theorem C03_flow_invariant : forall c s, reach c s -> FInv c s.
+Proof. exact flow_invariant. Qed.
+Print Assumptions C03_flow_invariant.
 
 (* unbounded in everything: the collector's bookkeeping under any schedule *)
 Theorem C03_reports_ordered : forall c s, reach c s -> calls_ok (zlen (s_seen s)) (s_calls s).
